@@ -20,6 +20,7 @@ func init() {
 			"R2 before the first device read the leftover bytes are either known absent, or moved into b[0:] exactly once by leftover.Read (which drains them) and the device read starts exactly behind them; bytes handed to a bytes.NewBuffer object that is never read, or copied without being removed, are lost / seen twice; " +
 			"R3 a frame served from the leftover buffer takes out of it exactly the prefix ending at the terminator it found (tested below the length of the leftover bytes; leftover.Read, or copy plus leftover.Next now or deferred), into b[0:], and decodes no more than it took; every exit taken after such a fragment was found and before any device read — error exits included — has removed it (progress); " +
 			"R4 the read loop calls the device again only with b[previous start + previous count:] and only after that position was established to be < len(b); after a device read without error it gives up (returns nothing) only when the position reached len(b) or exceeds a configuration field of the receiver; " +
+			"R6 at the first device read every flag tested by the scan of the device bytes is true only after a moved byte b[K], K below the number of moved bytes, was seen non-zero, and false only when nothing was moved, the examined constant prefix covers all moved bytes, or a counting loop over all moved bytes established b[i] == 0 in every continuing iteration; " +
 			"R5 what the writer hands to the device is zero bytes followed by Encode(<whole payload parameter>) on every non-error path. " +
 			"Index arithmetic is compared as linear forms over the current values of local variables; facts are dropped when a variable is assigned.",
 		Assumptions: []string{
@@ -1391,6 +1392,10 @@ func (fl *c16Flow) run() {
 			if s.Get("q:phase") != "dev" {
 				site := fl.ss.at("R2", call, "first device read", "before the device is read the leftover bytes are known absent or were moved into b[0:] (and drained) and the read starts right behind them")
 				site.add(fl.judgeFirstRead(s, call, fl.substEq(lo, s), ok))
+				for _, flag := range fl.startFlags(call) {
+					fsite := fl.ss.at("R6", call, "packet-start flag "+flag.Name(), "at the first device read the flag that makes the scan skip leading delimiters is true iff some byte moved from the leftover buffer is non-zero")
+					fsite.add(fl.judgeStartFlag(s, flag, fl.substEq(lo, s), ok))
+				}
 			} else {
 				site := fl.ss.at("R4", call, "repeated device read", "the device is read again into b[cur:] only after cur < len(b) was established")
 				site.add(fl.judgeReRead(s, call, lo, ok))
@@ -1699,13 +1704,19 @@ func (fl *c16Flow) run() {
 		case *ast.ReturnStmt:
 			fl.onReturn(y, s, constructOfReturn(y))
 		}
+		if as, ok := n.(*ast.AssignStmt); ok && len(as.Lhs) == 1 && len(as.Rhs) == 1 && (as.Tok == token.ASSIGN || as.Tok == token.DEFINE) {
+			if out, ok := fl.evalBoolAssign(s, as.Lhs[0], as.Rhs[0]); ok {
+				return out
+			}
+		}
 		return []kit.S{s}
 	}
 
 	st.Eval.Consistent = func(s kit.S) bool {
 		_, _, feasible := fl.leftoverLen(s)
-		return feasible
+		return feasible && fl.intAtomsConsistent(s)
 	}
+	loops := fl.scanLoops()
 	cl := st.Client()
 	innerCond, innerOther := cl.Cond, cl.Other
 	mark := func(states []kit.S, why string) []kit.S {
@@ -1717,6 +1728,21 @@ func (fl *c16Flow) run() {
 	}
 	cl.Cond = func(cond ast.Expr, s kit.S) (t, fs []kit.S) {
 		t, fs = innerCond(cond, s)
+		if fl.condHasVarIndexedTest(cond) {
+			for i := range t {
+				t[i] = t[i].Set("q:scan", "a test of b at a variable index took part")
+			}
+			for i := range fs {
+				fs[i] = fs[i].Set("q:scan", "a test of b at a variable index took part")
+			}
+		}
+		for _, l := range loops {
+			if l.fs.Cond == cond {
+				for i := range fs {
+					fs[i] = fs[i].Set("q:exh", fl.intern(fl.substEq(l.x, fs[i])))
+				}
+			}
+		}
 		if !fl.leafKnown(cond, s) {
 			why := "`" + f.Str(cond) + "` at " + f.At(cond)
 			return mark(t, why), mark(fs, why)
@@ -2283,7 +2309,8 @@ func runC16(c *kit.Ctx) {
 	r3 := c.Rule("R3", "frame from leftover consumes exactly the prefix it decodes", 1)
 	r4 := c.Rule("R4", "bounded accumulation: reads continue behind the data, stop only when full", 2)
 	r5 := c.Rule("R5", "writer hands zeros ‖ Encode(payload) to the device", 1)
-	rules := map[string]*kit.Rule{"R1": r1, "R2": r2, "R3": r3, "R4": r4}
+	r6 := c.Rule("R6", "packet-start flag reflects the bytes moved from the leftover buffer", 1)
+	rules := map[string]*kit.Rule{"R1": r1, "R2": r2, "R3": r3, "R4": r4, "R6": r6}
 
 	readers := c16FindReaders(c)
 	if len(readers) == 0 {
